@@ -15,7 +15,7 @@ use slog::{o, Logger};
 pub const ME: u64 = 1;
 pub const ELECTION_TICK: usize = 10;
 pub const HEARTBEAT_TICK: usize = 3;
-pub const CAP: usize = 6; // verif_shim::CAP (default build)
+pub const CAP: usize = raft::verif_shim::CAP; // 6, or 9 in the cap9 build
 pub const TERM_MAX: u64 = 1 << 62;
 
 #[derive(Clone, Copy)]
